@@ -12,6 +12,13 @@ import (
 
 // retry mode (C10): the graph is built by the REAL NewExecutionGraphForRetry from recorded node states.
 
+func at(a []int, i int) int {
+	if i < len(a) {
+		return a[i]
+	}
+	return 0
+}
+
 func statusOf(s string) scheduler.NodeStatus {
 	switch s {
 	case "running":
@@ -144,6 +151,21 @@ func monitorRetry(c schedCase, r *result, stopped bool) []string {
 		}
 		if final.St[i] == "not started" || final.St[i] == "running" {
 			add("C10:step-left-unfinished:node=%d now=%s", i, final.St[i])
+		}
+		// a step that is reset (recorded failed / canceled / running, or downstream of one) is executed from
+		// scratch: with its full retry budget, and its recorded retry count = the extra attempts of THIS run
+		reset := c.Init[i] == "failed" || c.Init[i] == "canceled" || c.Init[i] == "running" || (i < len(r.St0) && r.St0[i] == "not started" && c.Init[i] != "not started")
+		if reset && starts[i] > 0 && !c.Dry {
+			f, lim := c.Nodes[i].Fails, c.Nodes[i].Limit
+			want := f + 1
+			if f < 0 || f > lim {
+				want = lim + 1
+			}
+			if starts[i] != want {
+				add("C10:reexecuted-step-wrong-number-of-attempts:node=%d attempts=%d want=%d (limit %d, fails first %d, recorded retry count %d)", i, starts[i], want, lim, f, at(c.InitRC, i))
+			} else if final.Retry[i] != starts[i]-1 {
+				add("C10:reexecuted-step-retry-count-wrong:node=%d attempts=%d recorded=%d", i, starts[i], final.Retry[i])
+			}
 		}
 	}
 	return v
